@@ -56,6 +56,8 @@ pub fn alphabet(w: i32, h: i32) -> Vec<Op> {
         Op::PushClip(PathSpec::new(vec![POp::L(1.0, 0.0), POp::L(wf, 1.0), POp::L(1.0, hf)])),
         Op::PushClip(PathSpec::new(vec![POp::Z, POp::L(0.5, 0.5), POp::L(wf, 1.5), POp::L(0.5, hf)])),
         Op::PushClipRect(1, 1, w, h - 1),
+        // an inverted (empty) clip rectangle: everything pushed or drawn under it is a no-op
+        Op::PushClipRect(w - 1, h - 1, 1, 1),
         Op::PopClip,
         // strokes
         Op::Stroke(PathSpec::new(tri(0.5, hf - 0.5)), StyleSpec { width: 0.0, cap: 0, join: 0, miter: 4., dash: vec![], offset: 0. }, SrcSpec::Solid(RED), Opts::default()),
@@ -69,6 +71,9 @@ pub fn alphabet(w: i32, h: i32) -> Vec<Op> {
         Op::FillRect(1., 0., 2., 2., SrcSpec::Solid(GRN), Opts::default()),
         Op::PushLayer(0.5, BlendMode::SrcOver),
         Op::PopLayer,
+        // sources positioned through the current transform (anything cached from it shows)
+        Op::Fill(PathSpec::new(tri(0.25, hf - 0.25)), SrcSpec::Linear { stops: vec![Stop { pos: 0.0, color: 0xffff0000 }, Stop { pos: 1.0, color: 0xff0000ff }], spread: Spr::Pad, p: [0.5, 0.5, wf - 0.5, hf - 0.5] }, Opts::default()),
+        Op::FillRect(0.5, 0.25, wf - 1.0, hf - 0.5, SrcSpec::Image { w: 2, h: 2, data: vec![0xffff0000, 0xff00ff00, 0xff0000ff, 0x80404040], repeat: true, bilinear: false, xf: IDENT }, Opts::default()),
     ]
 }
 
